@@ -279,6 +279,18 @@ func (r *SexpArray) Type() *RegisteredType {
 }
 
 func (arr *SexpArray) SexpString(ps *PrintState) string {
+	// an array can (indirectly) contain itself; printing such a value
+	// must not recurse forever (a Go stack overflow kills the process).
+	if ps == nil {
+		ps = NewPrintState()
+	}
+	if arr != nil {
+		if ps.GetSeen(arr) {
+			return "[...]"
+		}
+		ps.SetSeen(arr, "array being printed")
+		defer delete(ps.Seen, arr)
+	}
 	indInner := ""
 	indent := ps.GetIndent()
 	innerPs := ps.AddIndent(4) // generates a fresh new PrintState
